@@ -788,7 +788,8 @@ def one_search(ctx, box, case: Case, W, stable, exhaustive, part="search"):
         ctx.violations.append({
             "what": f"the MIP built by priceable() is {'feasible' if M else 'infeasible'} but a price system {'exists' if D else 'does not exist'}",
             "case": case.to_json(), "cfg": cfg, "impl": M, "expected": D, "sig": dict(sig, kind="formulation")})
-    ans = box.call({"op": "priceable", "case": case.to_json(), "W": W, "stable": stable, "exhaustive": exhaustive})
+    feedback = (case.seed + len(W or [])) % 3 == 0
+    ans = box.call({"op": "priceable", "case": case.to_json(), "W": W, "stable": stable, "exhaustive": exhaustive, "feedback": feedback})
     if ans is None:
         ctx.solver_faults += 1
         ctx.count("solver_fault", "crash_or_timeout")
@@ -798,6 +799,14 @@ def one_search(ctx, box, case: Case, W, stable, exhaustive, part="search"):
                                "expected": D, "sig": dict(sig, kind="exception")})
         return None
     success = ans["status"] in ("OPTIMAL", "FEASIBLE")
+    fb = ans.get("feedback")
+    if fb is not None:
+        ctx.count("feedback_call", fb["status"] if fb["status"] in ("OPTIMAL", "FEASIBLE", "INFEASIBLE") else "other")
+        if ans.get("validate") and not fb["validate"] and D and mip_violation(case, ans, stable, exhaustive, searched) <= TOL / 100:
+            ctx.violations.append({"what": f"priceable found a price system for {ans.get('alloc')} (accepted by the validator); handed back as voter_budget / "
+                                           f"payment_functions with the same flags (stable={stable}, exhaustive={exhaustive}) the call reports {fb['status']}",
+                                   "case": case.to_json(), "cfg": dict(cfg, feedback=True), "impl": fb["status"], "expected": "success",
+                                   "sig": dict(sig, kind="feedback")})
     if success and mip_violation(case, ans, stable, exhaustive, searched) > TOL:
         # the returned point violates the conditions of a price system: a CBC hiccup when isolated (a few per 100 000 calls),
         # a defect of the search when it happens repeatedly in one run (see settle_suspects)
@@ -1135,7 +1144,15 @@ def one_relax(ctx, box, case: Case, W, kind, exhaustive, plain):
             "what": f"{RELAX_CLASS[kind]}: the optimum of the MIP built by priceable() is {Ms} {None if Mv is None else q2s(Mv)} but by the "
                     f"definition of the relaxation it is {Ds} {None if Dv is None else q2s(Dv)}", "case": case.to_json(), "cfg": cfg,
             "impl": None if Mv is None else q2s(Mv), "expected": None if Dv is None else q2s(Dv), "sig": dict(sig, kind="relax_formulation")})
-    ans = box.call({"op": "relax", "case": case.to_json(), "W": W, "kind": kind, "exhaustive": exhaustive})
+    prior = None
+    if names and (case.seed + len(W or [])) % 5 < 2:
+        # the relaxation object is REUSED: it went through a search for another allocation first
+        r_ = random.Random(case.seed ^ 0x77)
+        prior = [n for n in names if r_.random() < 0.5]
+        tot = F(0)
+        prior = [n for n in prior if (tot := tot + cost[n]) <= budget]
+        ctx.count("relaxation_object", "reused")
+    ans = box.call({"op": "relax", "case": case.to_json(), "W": W, "kind": kind, "exhaustive": exhaustive, "W_prior": prior})
     if ans is None:
         ctx.solver_faults += 1
         ctx.count("solver_fault", "crash_or_timeout")
